@@ -160,7 +160,12 @@ func runSeq(c Case, mode string) ([]obs, []string, string) {
 		}
 		if rq.BadHost != "" {
 			req.Host = rq.BadHost
-			req.Body = fmt.Sprintf("GET /p0 HTTP/1.1\r\nHost: %s\r\nX-Verif-Req: smuggled\r\n\r\n", org.Addr())
+			if rq.Method == "POST" {
+				req.Body = fmt.Sprintf("GET /p0 HTTP/1.1\r\nHost: %s\r\nX-Verif-Req: smuggled\r\n\r\n", org.Addr())
+			} else {
+				// the proxy's own error answer to a HEAD has no body either; one that has leaves it in the tunnel
+				req.Body = ""
+			}
 		}
 		var resp *px.Resp
 		var err error
@@ -187,8 +192,9 @@ func runSeq(c Case, mode string) ([]obs, []string, string) {
 			}
 			continue
 		}
-		if err != nil && mode == "one-tunnel" && i > 0 && c.Requests[i-1].BadHost != "" && tun != nil {
+		if err != nil && mode == "one-tunnel" && i > 0 && c.Requests[i-1].BadHost != "" && tun != nil && !strings.Contains(err.Error(), "malformed") {
 			// the proxy closed the tunnel after the refused exchange without saying so: one fresh tunnel is allowed
+			// (bytes that do not parse as a response are not a closed tunnel: they are what the refusal left behind)
 			tun.Close()
 			if tun, err = env.Connect(org.Addr()); err == nil {
 				resp, err = tun.Do(req)
@@ -364,7 +370,7 @@ func drawCase(t *rapid.T) Case {
 			rq.GetBody = true
 		}
 		if rapid.IntRange(0, 11).Draw(t, "bad-host") == 0 {
-			rq = Rq{Method: "POST", Path: rq.Path, BadHost: rapid.SampledFrom([]string{"bad host", "example.com:abc", "a%zzb", "[::1"}).Draw(t, "host")}
+			rq = Rq{Method: rapid.SampledFrom([]string{"POST", "POST", "HEAD", "GET"}).Draw(t, "bad-host-method"), Path: rq.Path, BadHost: rapid.SampledFrom([]string{"bad host", "example.com:abc", "a%zzb", "[::1"}).Draw(t, "host")}
 		}
 		c.Requests = append(c.Requests, rq)
 	}
